@@ -10,6 +10,7 @@ import (
 	sdk "github.com/cosmos/cosmos-sdk/types"
 	banktypes "github.com/cosmos/cosmos-sdk/x/bank/types"
 	ammtypes "github.com/elys-network/elys/x/amm/types"
+	aptypes "github.com/elys-network/elys/x/assetprofile/types"
 	llpkeeper "github.com/elys-network/elys/x/leveragelp/keeper"
 	llptypes "github.com/elys-network/elys/x/leveragelp/types"
 	perptypes "github.com/elys-network/elys/x/perpetual/types"
@@ -297,7 +298,56 @@ func runModuleUpgrade(w *World, ctx sdk.Context, mod string) (err error) {
 	return err
 }
 
+func addAliasOps(l *OpLib) {
+	// MsgAddEntry is open to any account in this version: an outsider registers asset-profile entries whose Denom
+	// is an EXISTING asset under a fresh base denom that sorts first, with other decimals — lookups "by denom"
+	// and lookups "by base denom" then disagree about that asset
+	for _, d := range []string{"uusdc", "uatom", "uelys"} {
+		d := d
+		l.Add("ap_alias_entry_"+d+"_18dec_t3", "profile_alias", 1, func(w *World, p *BlockPlan) {
+			p.Txs = one("t3", &aptypes.MsgAddEntry{Creator: w.A("t3").Addr.String(), BaseDenom: "aaa" + d, Denom: d, Decimals: 18, DisplayName: "ALIAS" + d, CommitEnabled: true, WithdrawEnabled: true})
+		})
+	}
+	// the ELYS price of the constant-product pool crashed below 0.5 USDC by one very large sale
+	l.Add("swap_in_p2_elys_usdc_XXL", "swap", 0, func(w *World, p *BlockPlan) {
+		p.Txs = one("t2", swapIn(w.A("t2"), "", C("uelys", 25e11), 1, rin(2, "uusdc")))
+	})
+}
+
+func addShortcutOps(l *OpLib) {
+	// the newest constant-product pool with UNEQUAL weights (create_pool_lp1: 80:20): an exact-out request for
+	// exactly HALF of its uusdc reserve (balance ratio exactly 2), and an exact-in of exactly its uatom reserve
+	weighted := func(w *World) (uint64, ammtypes.Pool) {
+		ps := w.App.AmmKeeper.GetAllPool(w.RCtx())
+		for i := len(ps) - 1; i >= 0; i-- {
+			p := ps[i]
+			if !p.PoolParams.UseOracle && len(p.PoolAssets) == 2 && !p.PoolAssets[0].Weight.Equal(p.PoolAssets[1].Weight) {
+				return p.PoolId, p
+			}
+		}
+		return 99, ammtypes.Pool{}
+	}
+	bal := func(p ammtypes.Pool, d string) math.Int {
+		for _, a := range p.PoolAssets {
+			if a.Token.Denom == d {
+				return a.Token.Amount
+			}
+		}
+		return math.OneInt()
+	}
+	l.Add("swap_out_p3_half_usdc_reserve", "swap", 0, func(w *World, p *BlockPlan) {
+		id, pool := weighted(w)
+		p.Txs = one("t2", &ammtypes.MsgSwapExactAmountOut{Sender: w.A("t2").Addr.String(), Routes: []ammtypes.SwapAmountOutRoute{rout(id, "uatom")}, TokenOut: sdk.NewCoin("uusdc", bal(pool, "uusdc").QuoRaw(2)), TokenInMaxAmount: I(1e14)})
+	})
+	l.Add("swap_in_p3_atom_double_reserve", "swap", 0, func(w *World, p *BlockPlan) {
+		id, pool := weighted(w)
+		p.Txs = one("t2", &ammtypes.MsgSwapExactAmountIn{Sender: w.A("t2").Addr.String(), Routes: []ammtypes.SwapAmountInRoute{rin(id, "uusdc")}, TokenIn: sdk.NewCoin("uatom", bal(pool, "uatom")), TokenOutMinAmount: I(1)})
+	})
+}
+
 func addUpgradeOps(l *OpLib) {
+	addAliasOps(l)
+	addShortcutOps(l)
 	for _, mod := range []string{"amm", "stablestake"} {
 		mod := mod
 		l.Add("upgrade_"+mod+"_prev_version", "upgrade", 1, func(w *World, p *BlockPlan) {
